@@ -197,9 +197,17 @@ def run_cases(cases):
         parts = list(ex.map(lambda s: run_impl(s, ""), shards))
     lines = [l for p in parts for l in p]
     drv = os.path.join(LEAN, ".lake", "build", "bin", "pwdriver")
+    def for_driver(l):
+        # inputs of tens of megabytes (the 16 MiB default-limit boundary) are not handed to the
+        # list-based Lean model: the driver only evaluates the expectation oracle on the real output
+        if len(l) > 4000000 and " in=" in l:
+            c, r = l.split(" || ", 1)
+            c = re.sub(r" in=[0-9a-f]*", " in=", c, count=1) + " nomodel=1"
+            return c + " || " + r
+        return l
     dshards = shard(lines, NCPU)
     def drive(sh_lines):
-        p = subprocess.run([drv], input="\n".join(sh_lines) + "\n", stdout=subprocess.PIPE, stderr=subprocess.PIPE, text=True)
+        p = subprocess.run([drv], input="\n".join(for_driver(l) for l in sh_lines) + "\n", stdout=subprocess.PIPE, stderr=subprocess.PIPE, text=True)
         if p.returncode != 0:
             raise RuntimeError("pwdriver failed: " + p.stderr[-500:])
         return [l for l in p.stdout.split("\n") if l]
